@@ -88,7 +88,11 @@ def cache_fill_neutral(obj, key):
     if d is None or type(d).__name__ != "spec_property" or not getattr(d, "cache", False):
         return False
     try:
-        return vars(obj)[key] == d.fget(obj)
+        stored, computed = vars(obj)[key], d.fget(obj)
+        if stored == computed:
+            return True
+        # (the getter's result is PREPARED before it is cached: a tuple handed out for a list attribute is stored as a list)
+        return isinstance(stored, list) and isinstance(computed, (tuple, list)) and stored == list(computed)
     except Exception:
         return False
 
